@@ -297,3 +297,6 @@ Proof.
   unfold pal_of. rewrite (find_own t Hnd p Hp). reflexivity.
 Qed.
 Print Assumptions set_palette_tie.
+
+(* ---------- the public getters (SequenceParameters) are exactly a return of the backend call with their own arguments ---------- *)
+Lemma fw_get_HTMLColorString : g_fw_get_HTMLColorString = SReturn (ECall "SeqObj.get_HTMLColorString"%string []). Proof. reflexivity. Qed.
